@@ -40,7 +40,7 @@ pub fn structural_alphabet() -> Alphabet {
         split: true,
         set_value: false,
         max_creations: 1,
-        names: &["n"],
+        names: &["n", "r"],
         values: &["v"],
             chardata: &[],
             chardata_extra: 0,
